@@ -660,8 +660,7 @@ Notes:
             else:
                 direc = asarray(direc, dtype=float)
             fval = squeeze(cost(x))
-            if self._maxiter != 0:
-                self._stepmon(x, fval, self.id) # get initial values
+            self._stepmon(x, fval, self.id) # get initial values
 
         elif not self.generations: # do generations = 1
             ilist = range(len(x))
